@@ -1862,6 +1862,16 @@ func (p *bprover) prove(facts []bfact, goal blin, at *ssa.BasicBlock, splits int
 					}
 				}
 			}
+			// quotient and remainder: their facts are conditional on the sign
+			// of the dividend, so what is known about the dividend matters
+			if bo, ok := a.v.(*ssa.BinOp); ok && a.k == aVal && (bo.Op == token.QUO || bo.Op == token.REM) {
+				for b := range p.linOf(bo.X).t {
+					if !rel[b] {
+						rel[b] = true
+						changed = true
+					}
+				}
+			}
 		}
 		if !changed {
 			break
